@@ -1672,5 +1672,6 @@ pub fn run(cfg: RunCfg) {
         move || near_limit_strategy(thorough),
         check
     );
+    vh_core::fuzz_section!(rep, "schedules", schedule_strategy, check, "sec_registers", "registers", 20_000, 300, 12);
     rep.finish();
 }
